@@ -10,6 +10,11 @@
 (*   [e |-> "MoveTo", p1, pos, prelen, key]         move_to_token(tok)           *)
 (*   [e |-> "Eos",    p0, p1, final (Seq)]          end of stream reported       *)
 (*   [e |-> "Err",    p0, p1]                       strict token error raised    *)
+(*   [e |-> "Jump",   p1]       the caller repositioned the reader (move_past_    *)
+(*                              token, skip_space_chars, next_chars, ...)          *)
+(* Peek / Next / MoveTo also carry `ps`, a small integer identifying the parsing    *)
+(* state the token was read under: "peek returns what a read would return" and      *)
+(* "reading again gives an equal token" are statements about one parsing state.     *)
 (* `key` identifies the token's full content (the harness' projection hashed     *)
 (* to a small integer per trace), so equality of tokens is equality of keys.     *)
 EXTENDS Integers, Sequences, TLC, Json, IOUtils
@@ -20,7 +25,7 @@ Diag == "DIAG" \in DOMAIN IOEnv /\ IOEnv.DIAG = "1"
 VARIABLES tid, l, frontier, lastPeek, lastMove, reads, at
 vars == <<tid, l, frontier, lastPeek, lastMove, reads, at>>
 
-None == [k |-> -1, p |-> -1]
+None == [k |-> -1, p |-> -1, ps |-> -1]
 S == Traces[tid].s
 Ev == Traces[tid].ev
 SliceEq(a, b, x) == b - a = Len(x) /\ \A i \in 1..Len(x) : S[a + i] = x[i]
@@ -31,8 +36,8 @@ Init == tid \in 1..Len(Traces) /\ l = 1 /\ frontier = 0 /\ lastPeek = None /\ la
 C_PeekPure(e)   == e.p1 = e.p0
 C_TokPlace(e)   == e.pos = e.p0 + Len(e.pre) /\ SliceEq(e.p0, e.pos, e.pre) /\ e.pos <= e.pos_end /\ e.pos_end <= Len(S)
 C_NextMoves(e)  == e.p1 = e.pos_end /\ e.p1 > e.p0
-C_SameAsPeek(e) == lastPeek.p = e.p0 => lastPeek.k = e.key
-C_SameAsMove(e) == lastMove.p = e.p0 => lastMove.k = e.key
+C_SameAsPeek(e) == (lastPeek.p = e.p0 /\ lastPeek.ps = e.ps) => lastPeek.k = e.key
+C_SameAsMove(e) == (lastMove.p = e.p0 /\ lastMove.ps = e.ps) => lastMove.k = e.key
 C_Tiling(e)     == e.p0 <= frontier           \* a read never skips unread input
 C_Count         == reads < Len(S) \/ Len(S) = 0
 C_MoveTo(e)     == e.p1 = e.pos - e.prelen
@@ -44,7 +49,7 @@ Step ==
     /\ LET e == Ev[l] IN
        CASE e.e = "Peek" ->
               /\ C_Cont(e) /\ C_PeekPure(e) /\ C_TokPlace(e) /\ at' = e.p1
-              /\ lastPeek' = [k |-> e.key, p |-> e.p0] /\ UNCHANGED <<frontier, lastMove, reads>>
+              /\ lastPeek' = [k |-> e.key, p |-> e.p0, ps |-> e.ps] /\ UNCHANGED <<frontier, lastMove, reads>>
          [] e.e = "Next" ->
               /\ C_Cont(e) /\ at' = e.p1
               /\ C_TokPlace(e) /\ C_NextMoves(e) /\ C_SameAsPeek(e) /\ C_SameAsMove(e) /\ C_Tiling(e)
@@ -54,7 +59,10 @@ Step ==
               /\ lastPeek' = None /\ lastMove' = None
          [] e.e = "MoveTo" ->
               /\ C_MoveTo(e) /\ at' = e.p1
-              /\ lastMove' = [k |-> e.key, p |-> e.p1] /\ lastPeek' = None /\ UNCHANGED <<frontier, reads>>
+              /\ lastMove' = [k |-> e.key, p |-> e.p1, ps |-> e.ps] /\ lastPeek' = None /\ UNCHANGED <<frontier, reads>>
+         [] e.e = "Jump" ->
+              /\ at' = e.p1 /\ frontier' = (IF e.p1 > frontier THEN e.p1 ELSE frontier)
+              /\ lastPeek' = None /\ lastMove' = None /\ UNCHANGED reads
          [] e.e = "Eos" ->
               /\ C_Cont(e) /\ at' = e.p1 /\ C_Eos(e) /\ UNCHANGED <<frontier, lastPeek, lastMove, reads>>
          [] e.e = "Err" ->
@@ -74,6 +82,7 @@ DiagClauses == (Diag /\ l <= Len(Ev)) =>
                             SameAsPeek |-> C_SameAsPeek(e), SameAsMove |-> C_SameAsMove(e), Tiling |-> C_Tiling(e),
                             Count |-> (e.p0 = frontier => C_Count)]
         [] e.e = "MoveTo" -> [MoveTo |-> C_MoveTo(e)]
+        [] e.e = "Jump" -> [Jump |-> TRUE]
         [] e.e = "Eos" -> [Cont |-> C_Cont(e), Eos |-> C_Eos(e)]
         [] e.e = "Err" -> [Cont |-> C_Cont(e), ErrPure |-> e.p1 = e.p0] >>)
 =============================================================================
